@@ -2,3 +2,4 @@ import IrVerif.Props.C03
 open IrVerif.Scope
 #print axioms C03_twice
 #print axioms C03_pure
+#print axioms C03_roundtrip
